@@ -557,26 +557,12 @@ end mirrorSolution
 /-! ### non-vacuity: the γ = 3 problem of `EPV.C02.RiemannGen` (pattern RCS), membrane at 0, t = 1,
 grid look-up "one hundredth to the left" -/
 
-open EPV.C02.RiemannGen (qEx aEx ex_sqrt1)
-
-theorem ex_sound1 : RiemannGen.soundSpeed eosIG (1 : ℝ) 3 3 = 1 := by
-  rw [show eosIG = ⟨false, eosIG.c⟩ from rfl, sound_ig, sound_eq]
-  norm_num
-theorem ex_sound2 : RiemannGen.soundSpeed eosIG (1 / 8 : ℝ) (3 / 2) 3 = 1 / 2 := by
-  rw [show eosIG = ⟨false, eosIG.c⟩ from rfl, sound_ig, sound_eq,
-    show (3 : ℝ) * (1 / 8) / (3 / 2) = (1 / 2) ^ 2 by norm_num, Real.sqrt_sq (by norm_num)]
+open EPV.C02.RiemannGen (qEx aEx ex_vHeadL ex_vTailL ex_vShockR)
 
 /-- the hypotheses of `gen_mirror_rcs_partial` on the original problem are satisfiable -/
 example : qEx.Distinct ∧ Crossing aEx ∧ aEx.px < qEx.pl ∧ qEx.pr < aEx.px ∧
     GridRCS eosIG (toData qEx) aEx (fun X => X - 1 / 100) 0 1 := by
   refine ⟨by unfold Prob.Distinct qEx; norm_num, rfl, by norm_num [qEx, aEx], by norm_num [qEx, aEx], ?_⟩
-  have e1 : RiemannGen.vHeadL eosIG (toData qEx) = -1 := by
-    simp only [RiemannGen.vHeadL, toData, qEx, ex_sound1]; norm_num
-  have e2 : RiemannGen.vTailL eosIG (toData qEx) aEx = 0 := by
-    simp only [RiemannGen.vTailL, toData, qEx, aEx, ex_sound2]; norm_num
-  have e3 : RiemannGen.vShockR (toData qEx) aEx = 13 / 12 := by
-    rw [(gen_shock_orientation qEx (by unfold Prob.Distinct qEx; norm_num) aEx).2]
-    simp only [qEx, aEx, ex_sqrt1]; norm_num
-  constructor <;> simp only [RiemannGen.xpos, e1, e2, e3] <;> norm_num [aEx]
+  constructor <;> simp only [RiemannGen.xpos, ex_vHeadL, ex_vTailL, ex_vShockR] <;> norm_num [aEx]
 
 end EPV.C09.RiemannGen
